@@ -16,7 +16,8 @@ EXPLANATION = (
 BOUNDS = {"quick": "targets 2.7, 3.3, 3.6, 3.8, 3.10, 3.11, 3.12; skeletons scalars / int const / text const per plane / bytes const / "
                    "nested code / names; ints |x| < 2^40; timestamp and size over 32 bits",
           "thorough": "+ targets 2.5, 3.0, 3.4, 3.7, 3.9, 3.13; ints |x| < 2^70; two constants"}
-OUTSIDE = ["'behaves identically' is taken to follow from field equality (bytecode semantics are not modelled)",
+OUTSIDE = ["the pipeline obligations read constants of the C10 skeleton shapes (incl. FLAG_REF sharing) inside a minimal code object",
+           "'behaves identically' is taken to follow from field equality (bytecode semantics are not modelled)",
            "target versions without interpreter: reference model only", "constants deeper than one container level"]
 ASSUMPTIONS = ["`open` inside xdis.load rebound to an in-memory sink; datetime.now() not used (timestamp given)",
                "CrossHair/z3 soundness; struct model; refmodels/marshal_ref.py (validated)"]
@@ -204,6 +205,111 @@ def make_ob(v, name, fields, const, tier):
               setup=c10.stub_long, oracle="R-model reader of the target version + xdis read-back; replay on real interpreter")
 
 
+def tagged_eq(a, b):
+    """structural equality of two tagged reference values (refmodels.marshal_ref), code objects field by field"""
+    if a[0] != b[0]:
+        return False
+    k = a[0]
+    if k in ("none", "true", "false", "ellipsis", "stopiter", "null"):
+        return True
+    if k == "int":
+        return a[1] == b[1]
+    if k == "float":
+        return R._feq(a[1], b[1])
+    if k == "complex":
+        return R._feq(a[1], b[1]) and R._feq(a[2], b[2])
+    if k in ("bytes", "s2", "u2"):
+        return R.seq_eq(a[1], b[1])
+    if k == "str":
+        return R.seq_eq(a[1], b[1])     # both UTF-8 payloads (ASCII forms are their own UTF-8)
+    if k in ("tuple", "list"):
+        return len(a[1]) == len(b[1]) and all(tagged_eq(x, y) for x, y in zip(a[1], b[1]))
+    if k in ("set", "frozenset"):
+        if len(a[1]) != len(b[1]):
+            return False
+        return all(any(tagged_eq(x, y) for y in b[1]) for x in a[1]) and all(any(tagged_eq(x, y) for y in a[1]) for x in b[1])
+    if k == "dict":
+        return len(a[1]) == len(b[1]) and all(tagged_eq(x[0], y[0]) and tagged_eq(x[1], y[1]) for x, y in zip(a[1], b[1]))
+    if k == "code":
+        fa, fb = a[1], b[1]
+        for f in fa:
+            if f in fb and not tagged_eq(fa[f], fb[f]):
+                return False
+        return True
+    return False
+
+
+def pipeline_ob(v, name, shape, tier):
+    """bytes of a file of version v -> xdis load -> write_bytecode_file -> the target's reader: same program"""
+    from props import mshapes as S
+    magic = MAGIC[v]
+    b = S.build(("c", False, v, {"co_consts": ("(", False, [shape, ("N",)]), "co_code": ("str", "s", False, [100, 0, 83, 0])}))
+    params = list(b.params)
+    pres = list(b.pre)
+    hdr = 16 if v >= (3, 7) else (12 if v >= (3, 3) else 8)
+
+    def pre(**kw):
+        return all(p(kw) for p in pres)
+
+    def pipeline(kw, carrier):
+        import xdis.load as LD
+        import xdis.unmarshal as U
+        items = S.realise(b, kw)
+        co = U.load_code(SymReader(carrier(items)), magic, False, {})
+        sink = Sink()
+        saved = getattr(LD, "open", None)
+        LD.open = lambda path, mode="r": sink
+        try:
+            LD.write_bytecode_file("out.pyc", co, magic, compilation_ts=1, filesize=0)
+        finally:
+            if saved is None:
+                del LD.open
+            else:
+                LD.open = saved
+        out = sink.items()
+        for x in out:
+            if not (0 <= x <= 255):
+                raise ValueError("bytes must be in range(0, 256)")
+        return items, out
+
+    def body(**kw):
+        try:
+            items, out = pipeline(kw, mkbytes)
+        except Exception:
+            return
+        orig, _e = R.load(items, 0, R.Ctx(v))
+        try:
+            new, end = R.load(out, hdr, R.Ctx(v))
+        except R.BadMarshal as e:
+            raise AssertionError("target-rejects: %s" % e)
+        assert end == len(out), "trailing bytes"
+        assert tagged_eq(orig, new), "read-then-written file is a different program: %r -> %r" % (orig[1].get("co_consts"), new[1].get("co_consts"))
+
+    def replay(**kw):
+        try:
+            items, out = pipeline(kw, lambda it: bytes(it))
+        except Exception:
+            return None
+        data = bytes(items)
+        if v in c10.REAL:
+            ro = R.real_loads(v, [data])[0]
+            rn = R.real_loads(v, [bytes(out)[hdr:]])[0]
+            if "err" in ro:
+                raise RuntimeError("real marshal rejects the skeleton: %s" % ro["err"])
+            if "err" in rn:
+                return "file written from %r: CPython %d.%d rejects it: %s" % (data, v[0], v[1], rn["err"])
+            a, c = ro["ok"][1].get("co_consts"), rn["ok"][1].get("co_consts")
+            return None if a == c else "CPython %d.%d loads co_consts %r from the original bytes and %r from the file xdis wrote after reading them" % (v[0], v[1], a, c)
+        orig, _e = R.load(list(data), 0, R.Ctx(v))
+        new, _e = R.load(list(out), hdr, R.Ctx(v))
+        return None if tagged_eq(orig, new) else "read-then-written file differs: %r -> %r [reference model only]" % (orig[1].get("co_consts"), new[1].get("co_consts"))
+
+    return Ob(id="C13.%d%d.pipeline.%s" % (v[0], v[1], name), prop="C13", params=params, body=body, pre=pre, replay=replay, funcs=FUNCS,
+              region="pipeline.%s" % name.split(".")[0], skeleton="bytes (%s) -> load_code -> write_bytecode_file -> target reader, %d.%d" % (name, v[0], v[1]),
+              bound="%d symbolic payload bytes" % len(params), timeout=120 if tier == "quick" else 400, setup=c10.stub_long,
+              oracle="R-model reader on both files; replay with the real marshal.loads of the target")
+
+
 def _same(a, b):
     from xdis.codetype.base import CodeBase
     from props import c14
@@ -228,4 +334,11 @@ def generate(tier, seed):
                   if not (k == "co_posonlyargcount" and v < (3, 8)) and not (k == "co_kwonlyargcount" and v < (3, 0))
                   and not (k == "co_nlocals" and v >= (3, 11))}
             obs.append(make_ob(v, name, f2, const, tier))
+    # read a file (incl. shared/back-referenced constants), write it back, compare what the target reads
+    wanted = ("int32", "long2n", "uni1", "bytes1", "(2", ">2", "<1", "share-(", "share->", "share->-after-child", "share-<",
+              "share-str-in-list", "share-two", "share-long", "bfloat-nan", "uni-euro")
+    for v in ((3, 8), (3, 10), (3, 6), (2, 7)) if tier == "quick" else (TARGETS_Q if tier == "quick" else [t for t in TARGETS_T if t < (3, 11)]):
+        for name, shape in c10.shapes_for(v, tier):
+            if tier == "thorough" or name in wanted:
+                obs.append(pipeline_ob(v, name, shape, tier))
     return obs
